@@ -331,13 +331,29 @@ pub fn run(prop: &str, tier: &str, replay: Option<&str>) -> i32 {
         let mut days: Vec<i64> = (0..=900).collect();
         days.extend([1095, 1096, 1825, 3650, 3653, 7305, 9125, 36500, 36525]);
         let starts = [TimeSpec::ymd(2024, 3, 1), TimeSpec::ymdhms(2049, 1, 1, 12, 0, 0)];
-        let cases: Vec<(usize, i64)> = (0..starts.len()).flat_map(|s| days.iter().map(move |d| (s, *d))).collect();
+        // ... for the kinds of certificate other software has duration rules for: plain, TLS server / client end entity, CA
+        let cases: Vec<(usize, i64, u8)> = (0..starts.len()).flat_map(|s| days.iter().flat_map(move |d| (0..4u8).map(move |k| (s, *d, k)))).collect();
         let ctx = stub_self_ctx(Alg::Ed25519, 1);
-        let sec = Section::new("sweep/validity-durations", "notAfter = notBefore + d days for d in 0..=900 and 9 longer spans, from two starting points (one of them crosses 2050)");
-        run::sweep_cases(&sec, &cases, &|c| format!("start #{} + {} days", c.0, c.1), &|c| {
+        let sec = Section::new("sweep/validity-durations", "notAfter = notBefore + d days for d in 0..=900 and 9 longer spans, from two starting points (one of them crosses 2050), for a plain certificate, a TLS server end entity (serverAuth + clientAuth, SAN), an explicit end entity with serverAuth only, and a CA");
+        run::sweep_cases(&sec, &cases, &|c| format!("start #{} + {} days, kind #{}", c.0, c.1, c.2), &|c| {
             let mut st = CertState::default();
             st.not_before = starts[c.0];
             st.not_after = TimeSpec { unix: starts[c.0].unix + c.1 * 86400, ..starts[c.0] };
+            match c.2 {
+                1 => {
+                    st.ekus = vec![EkuSpec::ServerAuth, EkuSpec::ClientAuth];
+                    st.sans = vec![SanSpec::Dns("tls.example".into())];
+                }
+                2 => {
+                    st.is_ca = IsCaSpec::ExplicitNoCa;
+                    st.ekus = vec![EkuSpec::ServerAuth];
+                }
+                3 => {
+                    st.is_ca = IsCaSpec::Unconstrained;
+                    st.key_usages = vec![5, 6];
+                }
+                _ => {}
+            }
             judge.judge(&st, &ctx)
         });
         rep.add(sec);
